@@ -12,7 +12,8 @@
                         output: enc_zlist bounds ++ enc_list (enc_zlist payload_k)
                                 ++ enc_zlist (decode (encode data)), zip = unzip = identity
    kind 3 (one Reader object)
-                        input : [3; n; nc; zc; nch; ns0; f0] ++ ops   f0 1=.bin 2=.cbin; op 0=open()
+                        input : [3; n; nc; zc; nch; ns0; f0; iw] ++ ops   f0 1=.bin 2=.cbin; iw = ignore_warnings;
+                                op 0=open() (first op: construction with open=True), 7=construction with open=False,
                                 1/2=compress_file keep/in place, 3/4=decompress_file keep/in place,
                                 5=decompress_to_scratch(dir) 6=decompress_to_scratch(None)
                         output: [#ops] ++ per op [raised; file; nbytes; ns; raw; warned; bin exists; cbin exists; scratch bin exists]
@@ -112,7 +113,7 @@ Definition run_codec (nc ns size : Z) (data : list Z) : list Z :=
 Definition dec_rop (z : Z) : rop :=
   if z =? 0 then ROpen else if z =? 1 then RCompress true else if z =? 2 then RCompress false
   else if z =? 3 then RDecompress true else if z =? 4 then RDecompress false
-  else if z =? 5 then RScratch true else RScratch false.
+  else if z =? 5 then RScratch true else if z =? 6 then RScratch false else RNop.
 Definition enc_raw (k : rawk) : Z :=
   match k with RawNone => 0 | RawMemmap => 1 | RawMtscomp => 2 | RawClosed => 3 end.
 Definition enc_rstate (x : rstate * bool) : list Z :=
@@ -120,8 +121,8 @@ Definition enc_rstate (x : rstate * bool) : list Z :=
   let o := s_obj s in
   [enc_bool e; enc_file (Some (o_file o)); o_nbytes o; o_ns o; enc_raw (o_raw o);
    enc_bool (o_warn o); enc_bool (s_eb s); enc_bool (s_ec s); enc_bool (s_sb s)].
-Definition run_obj (n nc zc nch ns0 f0 : Z) (ops : list Z) : list Z :=
-  let w := mkW n nc zc nch in
+Definition run_obj (n nc zc nch ns0 f0 iw : Z) (ops : list Z) : list Z :=
+  let w := mkW n nc zc nch (zb iw) in
   let s0 := r_start w (if f0 =? 1 then DBin else DCbin) ns0 in
   let tr := r_run w s0 (map dec_rop ops) in
   let sf := last (map fst tr) s0 in
@@ -135,7 +136,7 @@ Definition run (inp : list Z) : list Z :=
   | 1 :: opk :: r :: c :: m :: B :: keep :: chk :: ow :: sd :: fault :: st =>
       run_fs opk r c m B keep chk ow sd fault st
   | 2 :: nc :: ns :: size :: data => run_codec nc ns size data
-  | 3 :: n :: nc :: zc :: nch :: ns0 :: f0 :: ops => run_obj n nc zc nch ns0 f0 ops
+  | 3 :: n :: nc :: zc :: nch :: ns0 :: f0 :: iw :: ops => run_obj n nc zc nch ns0 f0 iw ops
   | _ => [-999]
   end.
 
